@@ -322,7 +322,7 @@ class Prop:
             hints = [h - base for h in compute_hints(res, t0, t1)]
             coq_cfgs.append(f"({H.coq_bool(ordered)}, {H.coq_bool(reduce)}, {H.coq_list(H.z(h) for h in hints)})")
             rm = res._root._meta or {}
-            obs_runs.append([[[str(k), H.meta_val(v)] for k, v in rm.items()], obs_forest(res._root, U)])
+            obs_runs.append([enc_meta(rm), obs_forest(res._root, U)])
             if not outside:
                 f, st = oracle(t0, t1, res, ordered, reduce, snap)
                 marks += st["marks"]
@@ -357,8 +357,24 @@ def sx_forest(root, U, base):
     return [sx_rt(c, U, base) for c in (root._children or [])]
 
 
+def enc_meta_val(v):
+    """metadata values: enum members as [9, value] (as common.meta_val), tuples as [7, *items] (never confusable)"""
+    if isinstance(v, tuple):
+        return [7] + [enc_meta_val(x) for x in v]
+    return H.meta_val(v)
+
+
+def enc_meta(meta):
+    return [[str(k), enc_meta_val(v)] for k, v in (meta or {}).items()]
+
+
+def obs_info(node, U):
+    a = U.info(node._data)
+    return [a["obj"], H.sx_did(node._data_id), H.sx_kind(getattr(node, "kind", None)), enc_meta(node._meta)]
+
+
 def obs_forest(root, U):
-    return [[H.sx_info(c, U), obs_forest(c, U)] for c in (root._children or [])]
+    return [[obs_info(c, U), obs_forest(c, U)] for c in (root._children or [])]
 
 
 # ---------------------------------------------------------------------------
